@@ -12,7 +12,7 @@ RULE = ("case = (protein fragment with hydrogens quantised to 2^-10 nm, 1-2 fram
         "rotations + dyadic translation up to 512 nm (exact in float32) | random SO(3) rotation + arbitrary translation up to 500 nm}; "
         "periodic {per-atom integer lattice shifts of +-3 cells and/or a whole-system translation, orthorhombic cells with dyadic lengths "
         "(exact) or triclinic cells (re-rounded)}; observables: distances, angles, dihedrals (magnitude and sign), RMSD to a co-moved "
-        "reference, Rg, gyration-tensor eigenvalues, DRID, SASA, contacts, Baker-Hubbard / Wernet-Nilsson / Kabsch-Sander hydrogen bonds, "
+        "reference, Rg, gyration-tensor eigenvalues, DRID, SASA, contacts (all five schemes), Baker-Hubbard / Wernet-Nilsson / Kabsch-Sander hydrogen bonds, "
         "DSSP, neighbour sets; oracle: before == after (discrete observables identical under exact transforms, continuous within L*delta + "
         "kernel tolerance, neighbour sets modulo pairs within 1e-4 of the cutoff); non-trivial = |translation| > 50 nm or a non-identity "
         "rotation or >=1 atom shifted by a lattice vector")
@@ -63,6 +63,8 @@ def observables(t, periodic, want_discrete=True):
     out["angles"] = md.compute_angles(t, trip, periodic=periodic)
     out["dihedrals"] = md.compute_dihedrals(t, quad, periodic=periodic)
     out["contacts"] = md.compute_contacts(t, "all", scheme="closest-heavy", periodic=periodic)[0]
+    for scheme in ("ca", "closest", "sidechain", "sidechain-heavy"):
+        out["contacts-" + scheme] = md.compute_contacts(t, "all", scheme=scheme, periodic=periodic)[0]
     if not periodic:
         out["rg"] = md.compute_rg(t)
         out["gyration-eig"] = np.array([np.linalg.eigvalsh(g) for g in md.compute_gyration_tensor(t)])
@@ -145,7 +147,7 @@ def run_case(case):
         ob, _p = observables(tb, periodic, want_discrete=True)
         xmax = float(max(np.abs(ta.xyz).max(), np.abs(tb.xyz).max()))
         ctol = 64 * oracle.EPS32 * (xmax + 1)
-        for name in ("distances", "contacts", "rg", "gyration-eig", "drid"):
+        for name in ("distances", "contacts", "contacts-ca", "contacts-closest", "contacts-sidechain", "contacts-sidechain-heavy", "rg", "gyration-eig", "drid"):
             if name not in oa:
                 continue
             a, b = np.asarray(oa[name], dtype=np.float64), np.asarray(ob[name], dtype=np.float64)
